@@ -1,7 +1,19 @@
 (** Pins for C16: the statements written out, so that no theorem is weakened quietly. *)
 From TucModel Require Import Base.Bytes Base.ListX Model.Bounds Model.Scan Model.Regex Model.Opt Model.CutStr
-     Proofs.C06 Proofs.ScanSplit Proofs.C12 Proofs.C16 Properties.C16.
+     Spec.RegexLang Proofs.C06 Proofs.ScanSplit Proofs.C12 Proofs.C16 Proofs.C16Sem Properties.C16.
 
+
+Check C16_engine_is_sound :
+  forall (r : re) (l : bytes) (n : nat), match_len r l = Some n -> n <= length l /\ re_lang r (firstn n l).
+Print Assumptions C16_engine_is_sound.
+
+Check C16_engine_is_complete :
+  forall (r : re) (l : bytes), match_len r l = None -> forall u s', l = u ++ s' -> ~ re_lang r u.
+Print Assumptions C16_engine_is_complete.
+
+Check C16_matches_are_the_leftmost_nonoverlapping_ones :
+  forall (r : re) (l : bytes), scan_ok r 0 0 l (re_find_iter r l).
+Print Assumptions C16_matches_are_the_leftmost_nonoverlapping_ones.
 
 Check C16_matches_are_well_formed :
   forall (r : re) (line : bytes),
